@@ -19,12 +19,21 @@ assert POOL[:8] == sorted(POOL[:8], key=lambda s: s.encode()), "pool order"
 POOL_SORTED = sorted(POOL, key=lambda s: s.encode())
 
 
-def sql_lit(v, pool):
+def date_string(v):
+    d = v + 1
+    for m, ln in ((1, 31), (2, 29), (3, 31), (4, 30), (5, 31)):
+        if d <= ln:
+            return f"2024-{m:02d}-{d:02d}"
+        d -= ln
+    raise ToolError("date out of range")
+
+
+def sql_lit(v, pool, date=False):
     k = v["k"]
     if k == "n":
         return "NULL"
     if k == "i":
-        return str(v["v"])
+        return f"DATE '{date_string(v['v'])}'" if date else str(v["v"])
     if k == "s":
         return "'" + pool[v["v"] - 1].replace("'", "''") + "'"
     raise ToolError(f"literal kind {k}")
@@ -34,20 +43,23 @@ def colname(i, np):
     return f"c{i}" if i <= np else ("d" if i == np + 1 else "e")
 
 
-def render(x, np, pool):
+def render(x, np, pool, c2type="i32", ctxcol=0):
+    """ctxcol: the column a literal is compared with (decides how an integer is written for a DATE column)"""
     op = x["op"]
     if op == "col":
         return colname(x["i"], np)
     if op == "lit":
-        return sql_lit(x["v"], pool)
+        return sql_lit(x["v"], pool, date=(c2type == "date" and ctxcol == 2 and np >= 2))
     if op == "bin":
         f = {"and": "AND", "or": "OR"}.get(x["f"], x["f"])
-        return f"({render(x['l'], np, pool)} {f} {render(x['r'], np, pool)})"
+        c = x["l"]["i"] if x["l"]["op"] == "col" else (x["r"]["i"] if x["r"]["op"] == "col" else 0)
+        return f"({render(x['l'], np, pool, c2type, c)} {f} {render(x['r'], np, pool, c2type, c)})"
     if op == "un":
-        e = render(x["e"], np, pool)
+        e = render(x["e"], np, pool, c2type)
         return {"not": f"(NOT {e})", "isnull": f"({e} IS NULL)", "isnotnull": f"({e} IS NOT NULL)"}[x["f"]]
     if op == "in":
-        return f"({render(x['e'], np, pool)} {'NOT ' if x['neg'] else ''}IN ({', '.join(render(l, np, pool) for l in x['list'])}))"
+        c = x["e"]["i"]
+        return f"({render(x['e'], np, pool, c2type)} {'NOT ' if x['neg'] else ''}IN ({', '.join(render(l, np, pool, c2type, c) for l in x['list'])}))"
     raise ToolError(f"node {op}")
 
 
@@ -117,10 +129,17 @@ def run(ctx):
         states += t.distinct
         for j, c in enumerate(got):
             c["pool"] = pool
-            c["sql"] = render(c["filter"], c["np"], pool)
+            c["c2type"] = ["i32", "date", "i64"][(r + j // 3) % 3]
+            c["sql"] = render(c["filter"], c["np"], pool, c["c2type"])
             c["spelling"] = ["enc", "enc", "raw"][(r + j) % 3]
             c["dict"] = (j % 2 == 1)
             c["tp"] = [1, 3][(j // 2) % 2]
+            c["cache"] = ["on", "off", "ttl", "on"][(j // 4) % 4]
+            # CREATE EXTERNAL TABLE paths (explicit PARTITIONED BY / inferred partitions) need a directory location without glob
+            c["mode"] = "api" if c["glob"] else ["api", "ddl", "api", "infer", "ddl"][(j + r) % 5]
+            if c["mode"] == "infer" and not any(f["present"] and f["covered"] for f in c["files"]):
+                c["mode"] = "ddl"        # schema inference needs at least one data file
+            c["slash"] = not (c["mode"] == "api" and not c["glob"] and (j + r) % 4 == 1)
             c["origin"] = f"Listing.tla NP={np_} SV={sv} IV={iv} seed={ctx.seed * 1000 + r}"
         cases += got
     if len(cases) < 50:
@@ -133,8 +152,12 @@ def run(ctx):
     for v in res["violations"]:
         report_violation(ctx, v, key=known_key(v))
     cnt = res["counters"]
-    if cnt.get("queries_with_files_pruned", 0) == 0:
-        raise ToolError("vacuity: no query pruned any file")
+    must = ["queries_with_files_pruned", "queries_with_prefix_listing", "repeat_queries_listing_served_from_cache", "mode_api", "mode_ddl", "mode_infer",
+            "cache_on", "cache_off", "cache_ttl", "c2type_i32", "c2type_i64", "c2type_date", "table_path_without_trailing_slash",
+            "ignore_subdirectory_false", "decoy_1", "decoy_2", "decoy_2_covered", "decoy_3", "decoy_3_covered", "decoy_4", "pruned_lists_smaller_than_table"]
+    never = [m for m in must if cnt.get(m, 0) == 0]
+    if never:
+        raise ToolError(f"vacuity: listing paths never exercised in this run: {never}")
     nneed = sum(1 for c in cases if 0 < len(c["need"]) < sum(1 for f in c["files"] if f["present"] and f["covered"]))
     write_evidence(ctx, "exploration", {
         "evaluations": res["evaluations"],
@@ -149,6 +172,6 @@ def run(ctx):
     }, assumptions=[
         "layouts are built from values (canonical percent-escaping of controls, space, %, /, ?, # and non-ASCII, or the raw spelling where it is a legal path and decodes to itself); directories such as c2=01 that no writer produces are outside the domain",
         "files live in an in-memory object store; CSV without header as the file format (the listing code is format independent)",
-        "stale files in the table root and nested non-partition sub-directories are not generated (their treatment is a documented configuration choice)",
+        "stale files in the table root are not generated; nested non-partition sub-directories follow listing_table_ignore_subdirectory (both values); CREATE EXTERNAL TABLE over a directory uses an empty extension filter, so wrong-extension decoys are only placed under API-built tables",
         "binding demonstrated while building: removing one necessary file's row from the expected result / dropping a file from `need` bookkeeping is reported by the driver",
     ])
